@@ -316,7 +316,7 @@ def oracle(ctx, volume=1):
                 "non-trivial = more than one repetition and sample size, or a violating estimate; distinct by configuration")
     ctx.partial += [
         {"theorem": "partition_independent_partial",
-         "missing": "tasks whose result depends on the state of a shared loss object: false on the tree (weighted fast loss, D9); partition_independent_fails"},
+         "missing": "tasks whose result depends on the state of a shared loss / algorithm object (hypothesis of the theorem; counter-example partition_independent_fails)"},
         {"theorem": "flow_streams_distinct", "missing": "injectivity of SeedSequence.spawn and MT19937 seeding is assumed"},
     ]
 
